@@ -54,7 +54,8 @@ def run(res, tier, build_ok):
     devs = ["/dev/sg0", "/dev/", "/dev", "/dev/nvme0n1", "/Dev/sg0", " /dev/sg0", "dev/sg0", "/devx/sg", "iscsi://h/t/1", "iscsi://",
             "iscsi:/h/t/0", "ISCSI://h/t/0", "iscsi://10.0.0.1:3260/iqn.2001-04.com.example:x/0", "", "x", "file:///dev/sg0", "/dev/iscsi://",
             "iscsi:///dev/sg0", "\\dev\\sg0", "iscsi://[fe80::1", "http://[fe80::1", " iscsi://h/t/0", "iscsi:h/t/0", "iscsi:",
-            "Iscsi://h/t/0", "iscsi://[::1]:3260/iqn.t/0", "/dev/../dev/sg0", "/dev//sg0", "//dev/sg0", "/dev/sg0\x00"]
+            "Iscsi://h/t/0", "iscsi://[::1]:3260/iqn.t/0", "iscsi://user%secret@10.0.0.1:3260/iqn.2001-04.com.example:x/0",
+            "iscsi://chapuser%p%40ss@h/iqn.t/3", "iscsi://user@h/iqn.t/0", "iscsi://h/iqn.t/0?x=1", "/dev/../dev/sg0", "/dev//sg0", "//dev/sg0", "/dev/sg0\x00"]
     for _ in range(20 * scale):
         devs.append("".join(rng.choice("/deviscsi:. x01") for _ in range(rng.randint(0, 14))))
     for has_sgio in (False, True):
